@@ -8,7 +8,7 @@ with conditions) are rendered to source and evaluated by Selector, CompiledSelec
 every record; TLC evaluates Ev on each (expression, record) pair and checks RefOK (machinery), EngI, EngC and
 Refuse (spec/Trace_Selector.tla).
 """
-from vf import check, selgen as sg
+from vf import check, common, selgen as sg
 from checks.c08 import validate
 
 PROP = "C07"
@@ -40,6 +40,12 @@ def run(tier):
             for c in cases[:3]:
                 ctx.sample({"expression": c["src"], "cpython": c["py"], "interpreted": c["I"], "compiled": c["C"]})
         validate(ctx, cases, tags, f"C07 grammar {start}..{start+len(part)-1}", prop=PROP)
+    # typed matchers, helpers and the like once more in a fresh interpreter that meets the records in reverse order
+    # (the grouped record and the record with the extra field first)
+    rc = common.in_fresh_process("c08", "reversed_order_cases", {"grammar": "c07", "seed": ctx.seed})
+    for c in rc:
+        ctx.case("reversed:" + c["src"])
+    validate(ctx, rc, [dict(c.pop("tag"), order="reversed", shape="-", supported=c["supI"]) for c in rc], "C07 grammar (typed / helper groups), reverse record order, fresh interpreter", prop=PROP, with_c=True, grouped=True)
     ctx.exhaustive = thorough
     ctx.extra["rule"] = ("expressions of depth <= 2 from the selector grammar (10 groups: cmp, bin, call, chain, gen, l2cmp, neg, bool, not, helper); quick samples each group "
                          "proportionally with the seed, thorough takes all; distinct = distinct expression texts; each is evaluated on 3 records by 2 engines")
